@@ -282,8 +282,8 @@ example : (compareTop (noTransf ckxCfg) (mapT ckxCfg [] ckxNA) (mapT ckxCfg [] c
 example : (compareTop (noTransf ckxCfg) ckxNA ckxNB).map (·.diffs) = .ok 4 := by decide
 example : ∀ x ∈ allItems ckxNA ++ allItems ckxNB, keyFieldsLeaf ckxCfg x := by
   intro x hx
-  simp only [ckxNA, ckxNB, allItems, allItemsK, allItemsL, ckxOuter, ckxSub, List.append_nil,
-    List.mem_append, List.mem_cons, List.not_mem_nil, or_false, or_assoc] at hx
+  simp only [ckxNA, ckxNB, allItems, allItemsK, allItemsL, ckxOuter, ckxSub, List.append_nil, List.nil_append,
+    List.cons_append, List.mem_cons, List.not_mem_nil, or_false] at hx
   rcases hx with rfl | rfl | rfl | rfl | rfl | rfl | rfl | rfl <;>
     simp [keyFieldsLeaf, ckxCfg, Cfg.default, PatArg.pats, Val.lookup, isLeaf]
 
